@@ -6,6 +6,7 @@
   covered by the `readback` correspondence op and by the oracle.
 -/
 import AriadneModel.Model.InputRel
+import AriadneModel.Model.InputWf
 
 set_option linter.unusedSimpArgs false
 set_option linter.unusedVariables false
@@ -67,28 +68,7 @@ theorem evalName_enum (env : Env) (n x : String) (vals : List String) (he : Enum
   have hne : (n == "") = false := by simpa using hn
   simp only [evalName, nameSyntaxError, hs, hne, hkw, Bool.or_self, Bool.false_eq_true, if_false, hms, hfind x hx hkw]
 
-/-! ### the proved literal shapes -/
-
-mutual
-  /-- no object literal; a list literal only at a list type; an int literal not at `ID`; an enum
-      literal only at the field's own enum type, not keyword-named -/
-  def plainLit (s : CSchema) (ft : String) : TypeRef → Lit → Bool
-    | _, .null => true
-    | t, .list xs =>
-      match CoerceInput.unNN t with
-      | .list it => plainLits s ft it xs
-      | _ => false
-    | _, .obj _ => false
-    | t, .int _ => listDepth t == 0 && t.base != "ID"
-    | t, .enum x =>
-      listDepth t == 0 && t.base == ft && ft != "" && !Tables.kwlist.contains x && x.toList.all (· != '.')
-        && (match s.find? ft with | some (.enum _ _) => true | _ => false)
-        && (coerceBuiltin ft .null).isNone
-    | t, _ => listDepth t == 0
-  def plainLits (s : CSchema) (ft : String) : TypeRef → List Lit → Bool
-    | _, [] => true
-    | t, x :: xs => plainLit s ft t x && plainLits s ft t xs
-end
+/-! ### the proved literal shapes: `plainLit` is defined in Model/InputWf.lean -/
 
 theorem nestE_zero (r : Except CErr J) : nestE 0 r = r := by
   cases r <;> rfl
